@@ -337,8 +337,8 @@ const FIELDS: &[&str] = &[
   "review.rating", "vec", "_id", "_score", "missing", "", "日本",
 ];
 const TEXTF: &[&str] = &["body", "title", "raw", "sayt", "body", "body"];
-const KWF: &[&str] = &["tag", "cat", "tag", "slow", "review.user"];
-const NUMF: &[&str] = &["n", "price", "ts", "review.rating", "n", "nofast"];
+const KWF: &[&str] = &["tag", "cat"];
+const NUMF: &[&str] = &["n", "price", "ts"];
 const SCRIPTS: &[&str] = &[
   "_score * 2", "n + 1", "a * price", "-(-_score)", "1/0", "((((", "1 +", "- - - 1", "n n", ".", "1e400", "1..2", "",
   "_score / (n - n)", "missing + 1", "a", "n * 1e308 * 1e308", "(_score)", ")(", "é",
@@ -362,14 +362,14 @@ impl<'a> Gen<'a> {
     }
   }
   fn field(&mut self, pool: &[&str]) -> String {
-    if self.rng.chance(1, 10) {
+    if self.rng.chance(1, 40) {
       self.rng.pick(FIELDS).to_string()
     } else {
       self.rng.pick(pool).to_string()
     }
   }
   fn f32v(&mut self) -> Value {
-    match self.rng.below(12) {
+    match self.rng.below(30) {
       0 => json!(0.0),
       1 => json!(-1.0),
       2 => json!(1e39),  // +inf as f32
@@ -379,8 +379,15 @@ impl<'a> Gen<'a> {
       _ => json!(self.rng.below(500) as f64 / 100.0),
     }
   }
+  fn unit(&mut self) -> Value {
+    if self.rng.chance(1, 8) {
+      self.f32v()
+    } else {
+      json!(self.rng.below(101) as f64 / 100.0)
+    }
+  }
   fn f64v(&mut self) -> Value {
-    match self.rng.below(12) {
+    match self.rng.below(20) {
       0 => json!(0.0),
       1 => json!(-1.5),
       2 => json!(1e308),
@@ -391,7 +398,7 @@ impl<'a> Gen<'a> {
     }
   }
   fn usz(&mut self) -> Value {
-    match self.rng.below(14) {
+    match self.rng.below(24) {
       0 => json!(0),
       1 => json!(u64::MAX),
       2 => json!(u64::MAX - 1),
@@ -472,7 +479,7 @@ impl<'a> Gen<'a> {
       8 => json!({"type":"multi_match","query": format!("{} {}", self.word(), self.word()),
                   "fields": [self.field(TEXTF), self.field(TEXTF)],
                   "match_type": *self.rng.pick(&["best_fields","most_fields","cross_fields"]),
-                  "tie_breaker": self.f32v(),
+                  "tie_breaker": self.unit(),
                   "operator": *self.rng.pick(&["or","and"]),
                   "minimum_should_match": if self.rng.chance(1,2) { self.usz() } else { json!(*self.rng.pick(&["50%","-50%","150%","%","é%",""])) }}),
       9 => json!({"type":"rank_feature","field": self.field(NUMF),
@@ -499,7 +506,7 @@ impl<'a> Gen<'a> {
       12 => {
         let n = self.rng.below(3);
         json!({"type":"dis_max","queries": (0..n).map(|_| self.query(depth - 1)).collect::<Vec<_>>(),
-               "tie_breaker": self.f32v()})
+               "tie_breaker": self.unit()})
       }
       13 => json!({"type":"constant_score","filter": self.filter(2)}),
       14 => {
@@ -540,8 +547,12 @@ impl<'a> Gen<'a> {
     }
   }
 
-  fn agg(&mut self, depth: u32) -> Value {
-    let k = self.rng.below(22);
+  fn agg(&mut self, depth: u32, top: bool) -> Value {
+    let mut k = self.rng.below(22);
+    if top && k >= 16 && self.rng.chance(9, 10) {
+      // pipeline aggregations are rejected at the top level: mostly generate them nested
+      k = self.rng.below(9);
+    }
     let missing = if self.rng.chance(1, 4) { json!(self.word()) } else if self.rng.chance(1, 3) { self.f64v() } else { Value::Null };
     let mut v = match k {
       0 => json!({"type":"terms","field": self.field(KWF), "size": self.usz(), "shard_size": self.usz(),
@@ -599,8 +610,20 @@ impl<'a> Gen<'a> {
         sub.insert("s".into(), json!({"type":"stats","field": self.field(NUMF), "missing": null}));
         let n = self.rng.below(3);
         for i in 0..n {
-          let a = self.agg(depth - 1);
+          let a = self.agg(depth - 1, false);
           sub.insert(format!("a{i}"), a);
+        }
+        if self.rng.chance(1, 2) {
+          let kinds = [
+            json!({"type":"derivative","buckets_path": *self.rng.pick(&["s.avg","_count","s.sum","x"]), "unit": self.f64v()}),
+            json!({"type":"moving_avg","buckets_path": *self.rng.pick(&["s.avg","_count"]), "window": self.usz(), "predict": self.usz()}),
+            json!({"type":"bucket_sort","sort": [{ self.rng.pick(&["_count","_key","s.avg","s"]).to_string(): *self.rng.pick(&["asc","desc"]) }], "from": self.usz(), "size": self.usz()}),
+            json!({"type":"bucket_script","buckets_path": {"a": "s.avg", "n": "_count"}, "script": *self.rng.pick(SCRIPTS)}),
+            json!({"type":"avg_bucket","buckets_path": *self.rng.pick(&["s.avg","_count","a0>s.avg","a0>_count"])}),
+            json!({"type":"sum_bucket","buckets_path": *self.rng.pick(&["s.sum","_count","a0>_count"])}),
+          ];
+          let pick = self.rng.below(kinds.len() as u64) as usize;
+          sub.insert("p".into(), kinds[pick].clone());
         }
         v["aggs"] = Value::Object(sub);
       }
@@ -674,7 +697,7 @@ impl<'a> Gen<'a> {
       let mut m = serde_json::Map::new();
       for i in 0..n {
         let name = *self.rng.pick(&["h", "t", "s", "x"]);
-        let a = self.agg(2);
+        let a = self.agg(2, true);
         m.insert(format!("{name}{}", if i == 0 { "".to_string() } else { i.to_string() }), a);
       }
       r["aggs"] = Value::Object(m);
@@ -694,9 +717,9 @@ impl<'a> Gen<'a> {
       let dim = *self.rng.pick(&[3usize, 3, 3, 0, 2, 4]);
       let vecv: Vec<Value> = (0..dim).map(|_| self.f32v()).collect();
       r["vector_query"] = if self.rng.chance(1, 4) {
-        json!(["vec", vecv, self.f32v()])
+        json!(["vec", vecv, self.unit()])
       } else {
-        json!({"field": self.field(&["vec", "vec", "body"]), "vector": vecv, "k": self.usz(), "alpha": self.f32v(),
+        json!({"field": self.field(&["vec", "vec", "vec", "vec", "body"]), "vector": vecv, "k": self.usz(), "alpha": self.unit(),
                "ef_search": self.usz(), "candidate_size": self.usz()})
       };
       if self.rng.chance(1, 3) {
@@ -710,7 +733,7 @@ impl<'a> Gen<'a> {
     if self.rng.chance(1, 8) {
       r["profile"] = json!(true);
     }
-    if self.rng.chance(1, 4) {
+    if self.rng.chance(1, 10) {
       let c = gen_cursor_string(self.rng, &self.cursors.clone());
       r["cursor"] = json!(c);
       self.bump("opt_cursor");
@@ -746,9 +769,15 @@ impl<'a> Gen<'a> {
       return;
     }
     let p = self.rng.pick(&paths).clone();
-    if p.last().map(|s| s == "type").unwrap_or(false) {
+    const ENUM_KEYS: &[&str] = &[
+      "type", "order", "match_type", "operator", "score_mode", "boost_mode", "modifier", "function", "gap_policy",
+      "execution", "t",
+    ];
+    let last = p.last().cloned().unwrap_or_default();
+    if ENUM_KEYS.contains(&last.as_str()) {
       return;
     }
+    let signed = matches!(last.as_str(), "min" | "max" | "v" | "origin" | "offset" | "missing");
     let mut cur = v;
     for seg in p.iter() {
       cur = match cur {
@@ -762,7 +791,8 @@ impl<'a> Gen<'a> {
       Value::Number(n) if n.is_f64() => self.f64v(),
       Value::Number(_) => match self.rng.below(3) {
         0 => self.usz(),
-        1 => self.i64v(),
+        1 if signed => self.i64v(),
+        1 => json!(u32::MAX as u64 + self.rng.below(3)),
         _ => json!(0),
       },
       _ => return,
@@ -836,7 +866,9 @@ fn sort_cursor_mutants(rng: &mut Rng, cur: &str) -> Vec<String> {
 fn main() {
   let args = parse_args();
   install_hook();
-  let mut rng = Rng::new(args.seed);
+  // slv::Rng::new(s) and Rng::new(s + 1) produce the same stream shifted by one draw; scramble the
+  // seed so that different seeds give unrelated runs
+  let mut rng = Rng::new((args.seed ^ 0x5DEECE66D).wrapping_mul(0xD6E8FEB86659FD93).rotate_left(29));
   let progress = args.out.join("progress.txt");
   let mut lits: Vec<String> = Vec::new();
   let mut metas: Vec<Value> = Vec::new();
